@@ -235,7 +235,14 @@ func genHistory(t *rapid.T) HCase {
 			continue
 		}
 		var r Reg
-		switch rapid.IntRange(0, 5).Draw(t, "reg-kind") {
+		switch rapid.IntRange(0, 6).Draw(t, "reg-kind") {
+		case 6:
+			// an index at the edge of what a header can carry (the relay application id, the
+			// largest 24-bit command code ...): no message of the history has it, so it must
+			// not change how any of them is dispatched
+			e := rapid.SampledFrom([]Idx{{0xffffffff, 0xffffff, false}, {0xffffffff, 0xffffff, true}, {0xffffffff, 0, false}, {0xfffffffe, 0xffffff, false},
+				{0, 0xffffff, false}, {0xffffffff, 257, true}}).Draw(t, "edge-index")
+			r.Idx = &e
 		case 0, 1:
 			r.Idx = &Idx{App: f.App, Code: f.Code, Req: req}
 		case 2, 3:
